@@ -145,7 +145,7 @@ CHECKS = {
         "plain_tests": ["TestRegressC07"],
         "rule": "cases = continuous vesting sender with 1-3 denominations, original vesting per denomination half from the shape m*10^k+o (m in {1,2,3,5,7,9}, k<=30, o in -3..3) and half from the boundary mixture up to 10^30; schedule with elapsed fraction num/den for den in {2,3,4,5,7,8,10,100,997,1000} (num=-1: start in the future); optional extra spendable coins; optional real MsgDelegate of part of the balance; then a chain of 1-5 split / move / move-by-denoms messages (the by-denoms list in a drawn order, half of the time with a not-held denomination added) from the sender or earlier recipients with per-denomination amounts in {1, locked, locked-1, omitted, uniform in 1..locked}. "
                 "Non-trivial = a split accepted strictly inside the vesting period for less than everything locked. Distinct = SHA-256 of the history.",
-        "min_nontrivial_fraction": 0.2,
+        "min_nontrivial_fraction": 0.17,
         "min_class_fraction": {"delegated_vesting": 0.08, "chain_depth_ge2": 0.3, "ov_digits_20": 0.08, "ov_digits_25": 0.05, "ov_digits_30": 0.05, "multi_denom": 0.3},
         "level_text": "Every request within the sender's locked, undelegated coins must be accepted; afterwards bank LockedCoins(sender) fell by exactly the request per denomination, SpendableCoins(sender) is unchanged, the recipient is a new continuous vesting account with original vesting == locked == balance == request, end == sender's end, start == max(now, sender's start); at five future instants sender+recipient vest what the pre-split sender would (within 3+ceil(3*OV*10^-18) units), locked likewise when nothing is delegated and never less when vesting coins are delegated.",
         "level_note": "With delegated vesting the statement's 'locked' equality cannot hold by construction of x/auth vesting accounts (locked = max(vesting - delegated, 0)); the check then demands equality of vesting coins and the safe-direction inequality on locked coins (DESIGN §5 C07). Bounds: amounts <= 10^30, 3 denominations, chains <= 5.",
